@@ -293,9 +293,11 @@ def small_circular_specs(draw) -> dict:
                            "neighbourhood": draw(st.sampled_from([0, 1, 3, 5]))})
     gaps = tuple(sorted({max(0, r["cutoff"] + d) for r in spec_rules for d in (-1, 0, 1)}))
     genes = draw(gen.gene_layout(length, True, max_genes=7, size_hint=4, gap_choices=gaps, multi_exon=True))
+    from vlib import rules as rule_model
+    used = sorted(set().union(*[rule_model.profiles_of(rule["conditions"]) for rule in spec_rules]))
     hits = {}
     for gene in genes:
-        chosen = draw(st.lists(st.sampled_from(PROFILES), max_size=2, unique=True))
+        chosen = draw(st.lists(st.sampled_from(used + PROFILES[:1]), min_size=0, max_size=2, unique=True))
         hits[gene["name"]] = {p: 100 for p in chosen}
     return {"L": length, "circular": True, "genes": genes, "hits": hits, "rules": spec_rules}
 
